@@ -235,6 +235,34 @@ theorem C02_no_third_node (cfg : RouteCfg) (v : VCluster) (net : Addr → Option
       rw [hr] at hx
       rcases hx with h | h <;> cases h
 
+
+/-! ## what the hypothesis on node addresses is for (finding F02a) -/
+
+/-- `C02_stable` without the address hygiene hypothesis `AddrOk` (all other hypotheses kept) -/
+def StableWithoutAddrOk : Prop :=
+  ∀ (cfg : RouteCfg) (v : VCluster) (net : Addr → Option ProxyState),
+    PartitionView v → v.name ≠ "" → PendingNormal v → cfg.activeRedirection = false → Synced cfg v net →
+    ∀ s, s < SLOT_NUM → ¬ PendingAt v s →
+      ∃ n₀ sr₀, Cov v s n₀ sr₀ ∧
+        ∀ start, IsProxy v start → ∃ k, k ≤ 1 ∧ EndsAt (follow net s FOLLOW_FUEL start) k n₀.proxy n₀.address
+
+/-- **F02a: the full statement is false of the code.**  `add_proxy` accepts a proxy whose two node
+addresses are equal; in the state reached by `add_proxy p1:1 n:1 n:1`, two more proxies,
+`add_cluster c 4`, and a failover of `p1:1`'s partner, `p1:1` hosts both masters under one address
+(`dupView`, a `PartitionView` — C01 holds).  `generate_proxy_meta_cmd_args` inserts both under the
+same `HashMap` key, the ranges of the first are overwritten, and the fully synced proxy answers
+`slot not covered` for slot 0, which the broker designates to its own node. -/
+theorem C02_full_false_dup_node_address : ¬ StableWithoutAddrOk := by
+  intro h
+  obtain ⟨n₀, sr₀, _, hall⟩ := h {} dupView dupNet dupView_partition (by decide) (pendingNormal_of_B _ (by decide)) rfl
+    dupSynced 0 (by decide) (by rw [pendingAt_iff_B]; decide)
+  have hp : IsProxy dupView "p1:1" :=
+    ⟨{ address := "n:1", proxy := "p1:1", replica := false, peers := [("p2:12", "p2:1")], slots := [⟨[(0, 8191)], .none⟩] },
+      by simp [dupView], rfl⟩
+  obtain ⟨k, _, he⟩ := hall "p1:1" hp
+  rw [dup_follow] at he
+  rcases he with he | he <;> cases he
+
 /-! ## the phase pairs -/
 
 /-- **the enumeration is exact**: the triples `Consistent` accepts (8 state pairs; blocking on or
